@@ -110,6 +110,10 @@ func ClosedDocWith(t *rapid.T, p *Profile, maxTok int, label string, hook func([
 			if strings.Contains(p.ForbidBytes, "[") && strings.Contains(b, "[") {
 				b = "> q\n"
 			}
+			if rapid.IntRange(0, 11).Draw(t, label+"patho") == 0 {
+				// a paragraph of a repeated unit (worst-case scanning work) in place of the closed block
+				b = string(p.Repair(PathologicalDoc(t, p, label+"pd"))) + "\n"
+			}
 			doc = append(doc, b...)
 		}
 	}
